@@ -271,3 +271,94 @@ def gen_venom():
     lines.append(";\n".join(f"  ({nty(*ty)}, {vtemplate_term(*n)})" for ty, n in c))
     lines.append("].\n")
     return "\n".join(lines), t, c
+
+
+# ---------------------------------------------------------------- conversions (convert(x, T)) on word types
+def conv_types():
+    """[(coq cty term, key tuple, vyper type)] : 64 ints, decimal, bool, address, bytes1..32, flags with 1/3/255/256 members"""
+    from vyper.semantics.types import AddressT, BoolT, BytesM_T
+    from vyper.semantics.types.user import FlagT
+    out = []
+    for k, s, d, T in num_types():
+        out.append((f"(CNum {nty(k, s, d)})", ("num", k, s, d), T))
+    out.append(("CBool", ("bool",), BoolT()))
+    out.append(("CAddr", ("addr",), AddressT()))
+    for m in range(1, 33):
+        out.append((f"(CBytes {m})", ("bytes", m), BytesM_T(m)))
+    for n in (1, 3, 255, 256):
+        out.append((f"(CFlag {n})", ("flag", n), FlagT(f"F{n}", {f"m{i}": i for i in range(n)})))
+    return out
+
+
+def legacy_convert(in_t, out_t):
+    """vyper.builtins._convert.convert on the symbolic word operand x (IR variable), real dispatch."""
+    from vyper import ast as vy_ast
+    from vyper.builtins import _convert as CV
+    from vyper.codegen.ir_node import IRnode
+    x = IRnode.from_list("x", typ=in_t)
+    arg_ast = vy_ast.Name.__new__(vy_ast.Name)
+    fake_arg = types.SimpleNamespace(reduced=lambda: arg_ast)
+    fake_ty = types.SimpleNamespace(_metadata={"type": types.SimpleNamespace(typedef=out_t)})
+    expr = types.SimpleNamespace(args=[fake_arg, fake_ty])
+
+    class FakeExpr:
+        def __init__(self, node, ctx):
+            self.ir_node = x
+
+    with mock.patch.object(CV, "Expr", FakeExpr):
+        return CV.convert(expr, None)
+
+
+def venom_convert(in_t, out_t):
+    """vyper.codegen_venom.builtins.convert.lower_convert on the symbolic operand %1, real dispatch."""
+    from vyper import ast as vy_ast
+    from vyper.codegen_venom import expr as VE
+    from vyper.codegen_venom.builtins import convert as VC
+
+    def g(b, x, y):
+        arg_node = vy_ast.Name.__new__(vy_ast.Name)
+        arg_node._metadata = {"type": in_t}
+        node = types.SimpleNamespace(
+            args=[arg_node, types.SimpleNamespace(_metadata={"type": types.SimpleNamespace(typedef=out_t)})])
+
+        class FakeExpr:
+            def __init__(self, n, c):
+                pass
+
+            def lower_value(self):
+                return x
+
+        with mock.patch.object(VE, "Expr", FakeExpr), \
+                mock.patch.object(vy_ast.Name, "has_folded_value", property(lambda self: False)):
+            return VC.lower_convert(node, types.SimpleNamespace(builder=b))
+
+    ins, r, x, y = venom_record(g)
+    return ins, r
+
+
+def convert_templates(kind):
+    """-> list of (cty_in term, cty_out term, template) for every pair the real convert accepts."""
+    from vyper.exceptions import VyperException
+    tys = conv_types()
+    out = []
+    with settings_ctx():
+        for ci, ki, ti in tys:
+            for co, ko, to in tys:
+                try:
+                    t = legacy_convert(ti, to) if kind == "legacy" else venom_convert(ti, to)
+                except VyperException:
+                    continue
+                out.append((ci, co, ki, ko, t))
+    return out
+
+
+def gen_convert(kind):
+    t = convert_templates(kind)
+    name = "legacy_converts" if kind == "legacy" else "venom_converts"
+    ty = "lir" if kind == "legacy" else "vtemplate"
+    term = lir_term if kind == "legacy" else (lambda n: vtemplate_term(*n))
+    lines = [HEADER.replace("C03.ArithSpec.", "C03.ArithSpec C03.ConvSpec."),
+             f"Definition {name} : list (cty * cty * {ty}) := ["]
+    lines.append(";\n".join(f"  ({ci}, {co}, {term(n)})" for ci, co, _, _, n in t))
+    lines.append("].\n")
+    return "\n".join(lines), t
